@@ -15,7 +15,7 @@
 //!   fold  ∈ sum | cnt | max | nd                           (local/global fold pair)
 //!   cond  ∈ T | F | lt:<b> | dec | ltm:<b>                 (loop_condition, may mutate)
 //!   delay ∈ none | fb | fbo | data    fb: every state-feedback message is held 2 ms by the receiving
-//!           head replicas of the last host/replica; fbo: only the outermost leader's feedback, 6 ms, at
+//!           head replicas of the last host/replica; fbo: only the outermost leader's feedback, 15 ms, at
 //!           the last host (single host: last replica); data: data batches towards replica 0 held 1 ms
 //! ops:    `i <x>` input elements
 //! outputs: `state <list>` (collect_vec of the state stream), `items <sorted list>` (iterate),
@@ -344,7 +344,7 @@ fn observer(cfg: &Cfg) -> Arc<dyn Fn(&LinkEvent) + Send + Sync> {
         let last_place = if hosts > 1 { e.dest.host_id == hosts - 1 } else { e.dest.replica_id == cores - 1 };
         let ms = match delay.as_str() {
             "fb" if !e.send && is_leader && last_place => 2,
-            "fbo" if !e.send && is_leader && is_outer && last_place => 6,
+            "fbo" if !e.send && is_leader && is_outer && last_place => 15,
             "data" if e.send && !is_leader && e.dest.replica_id == 0 && e.kinds.iter().any(|k| k.0 == "I") => 1,
             _ => 0,
         };
